@@ -173,6 +173,25 @@ def directive_tx(c):
             "collateral": [], "signers": {"k": "none"}, "metadata": []}
 
 
+WIDE = {1: "c", 2: "\u00e9", 3: "\u3068", 4: "\U0001F600"}
+
+
+def metadata_tx(c):
+    text = "a" * c["prefix"] + WIDE[c["width"]] + "b" * c["tail"]
+    raw = list(text.encode())
+    if c["form"] == "string":
+        val = {"k": "string", "v": raw}
+    elif c["form"] == "bytes":
+        val = {"k": "bytes", "v": raw}
+    else:
+        half = c["prefix"] // 2
+        val = {"k": "concat", "a": {"k": "string", "v": list(text[:half].encode())}, "b": {"k": "string", "v": list(text[half:].encode())}}
+    tx = directive_tx({"name": "treasury_donation", "shapes": {"coin": "good"}, "extra": False})
+    tx["adhoc"] = []
+    tx["metadata"] = [{"key": {"k": "number", "num": I(674)}, "value": val}]
+    return tx
+
+
 def templates(rep, tier, seed):
     quick = tier == "quick"
     rng = random.Random(seed)
@@ -214,6 +233,13 @@ def templates(rep, tier, seed):
                     "origin": "directive:" + c["name"] + ":" + ",".join(f"{k}={v}" for k, v in sorted(c["shapes"].items()) if v != "good")
                               + ("+extra" if c["extra"] else "")})
     rep.extra["directive_instances"] = len(dcs)
+    # metadata text / bytes around the 64-byte limit, a multi-byte character possibly straddling it (Backend!MetadataTextCases)
+    mr = core.tlc_mc("MC_Backend", BCFG.format(pairs="FALSE", mode="metadata", maxdev=0), "c14_metadata", workers=2, timeout=600)
+    rep.add_tlc(mr)
+    for c in mr.cases:
+        out.append({"kind": "tir", "tx": metadata_tx(c), "params": [("p1", "Int")], "queries": ["src"],
+                    "origin": f"metadata:{c['form']}:{c['prefix']}+{c['width']}+{c['tail']}"})
+    rep.extra["metadata_text_cases"] = len(mr.cases)
     from .staging import CFG_CLOSURE
     clo = core.tlc_mc("MC_Closure", CFG_CLOSURE.format(depth=0 if quick else 1), "c14_closure", workers=6, timeout=1500)
     rep.add_tlc(clo)
@@ -269,7 +295,7 @@ def check(tier, seed):
         for row in chosen:
             jobs.append(realise(t, row, len(jobs)))
             meta.append((t["origin"], row))
-    limit = 45000 if quick else 400000
+    limit = 32000 if quick else 400000
     if len(jobs) > limit:
         idx = sorted(rng.sample(range(len(jobs)), limit))
         jobs = [dict(jobs[i], id=k) for k, i in enumerate(idx)]
